@@ -6,6 +6,7 @@ CONSTANTS
   PDir = FALSE
   PLoops = TRUE
   PKF <- PathKF
+  PAcc = FALSE
   PSparse = FALSE
 INVARIANT InvPaths
 INVARIANT InvValid
